@@ -196,7 +196,7 @@ MODULE_NAMES = {'commands', 'queries', 'helpers', 'manager', 'liquidity', 'swap'
                 'crate', 'error', 'update_config'}
 
 
-ITER_ADAPTERS = {'position', 'any', 'all', 'find'}
+ITER_ADAPTERS = {'position', 'any', 'all', 'find', 'max', 'min'}
 
 
 class Rewriter:
@@ -310,6 +310,14 @@ class Rewriter:
                 if p is not None and (is_p(p, '&') or p.kind == 'lifetime' or is_id(p, 'mut')):
                     out.append(T('ident', 'Str', t.start))
                     k += 1
+                    continue
+            # impl Into<Uint256> / impl Into<u128>  ->  impl ToNat   (R6)
+            if is_id(t, 'Into') and prv_out() is not None and is_id(prv_out(), 'impl') and nxt(k) < n and is_p(toks[nxt(k)], '<'):
+                e = nxt(nxt(nxt(k)))
+                if e < n and is_p(toks[e], '>') and toks[nxt(nxt(k))].text in ('Uint256', 'u128', 'Uint128', 'Uint512'):
+                    self.rec('R6', 'impl Into<%s>' % toks[nxt(nxt(k))].text, 'impl ToNat')
+                    out.append(T('ident', 'ToNat', t.start))
+                    k = e + 1
                     continue
             # dyn Storage -> Storage (R13)
             if is_id(t, 'dyn') and nxt(k) < n and is_id(toks[nxt(k)], 'Storage'):
@@ -481,11 +489,14 @@ def parse_spec(path):
         m = LABEL.match(line)
         if st in ('requires', 'ensures', 'invariant') and mode != 'body':
             flush()
-            if mode and mode[0] == 'loop':
+            if mode and mode[0] == 'loop' and st == 'invariant':
                 target = cur.loops[mode[1]].setdefault(st, [])
             elif mode and mode[0] == 'closure':
                 target = cur.closures[mode[1]].setdefault(st, [])
             else:
+                if st == 'invariant':
+                    raise ExtractError('spec %s: `invariant` outside a loop section (fn %s)' % (path, cur.name))
+                mode = None
                 target = getattr(cur, st)
             continue
         if st.startswith('loop ') and mode != 'body':
